@@ -14,6 +14,13 @@ use crate::{
 pub struct Error(pub(crate) Message);
 
 impl Error {
+    #[doc(hidden)]
+    /// Used by construct macro: error is a rendered help/version message
+    #[must_use]
+    pub fn is_stdout(&self) -> bool {
+        matches!(self.0, Message::ParseFailure(ParseFailure::Stdout(..)))
+    }
+
     pub(crate) fn combine_with(self, other: Self) -> Self {
         Error(self.0.combine_with(other.0))
     }
